@@ -104,23 +104,23 @@ func (r *recorder) BeforeFixedPriceAuctionCreated(ctx context.Context, auctionee
 	// the id has already been taken from the sequence: the record under (next-1) must not exist yet
 	next, _ := r.k.AuctionSeq.Peek(ctx)
 	has, _ := r.k.Auction.Has(ctx, next-1)
-	return r.rec(ctx, "BeforeFixedPriceAuctionCreated", fmt.Sprintf("%s|%s|%s|%s|%s|%s|%s", auctioneer, startPrice, sellingCoin, payingCoinDenom, schedStr(vs), tfmt(start), tfmt(end)), fmt.Sprintf("stored=%v", has))
+	return r.rec(ctx, "BeforeFixedPriceAuctionCreated", fmt.Sprintf("%s|%s|%s|%s|%s|%s|%s", CanonAddr(auctioneer), startPrice, sellingCoin, payingCoinDenom, schedStr(vs), tfmt(start), tfmt(end)), fmt.Sprintf("stored=%v", has))
 }
 
 func (r *recorder) AfterFixedPriceAuctionCreated(ctx context.Context, id uint64, auctioneer string, startPrice math.LegacyDec, sellingCoin sdk.Coin, payingCoinDenom string, vs []types.VestingSchedule, start, end time.Time) error {
 	has, _ := r.k.Auction.Has(ctx, id)
-	return r.rec(ctx, "AfterFixedPriceAuctionCreated", fmt.Sprintf("%d|%s|%s|%s|%s|%s|%s|%s", id, auctioneer, startPrice, sellingCoin, payingCoinDenom, schedStr(vs), tfmt(start), tfmt(end)), fmt.Sprintf("stored=%v", has))
+	return r.rec(ctx, "AfterFixedPriceAuctionCreated", fmt.Sprintf("%d|%s|%s|%s|%s|%s|%s|%s", id, CanonAddr(auctioneer), startPrice, sellingCoin, payingCoinDenom, schedStr(vs), tfmt(start), tfmt(end)), fmt.Sprintf("stored=%v", has))
 }
 
 func (r *recorder) BeforeBatchAuctionCreated(ctx context.Context, auctioneer string, startPrice, minBidPrice math.LegacyDec, sellingCoin sdk.Coin, payingCoinDenom string, vs []types.VestingSchedule, maxRounds uint32, rate math.LegacyDec, start, end time.Time) error {
 	next, _ := r.k.AuctionSeq.Peek(ctx)
 	has, _ := r.k.Auction.Has(ctx, next-1)
-	return r.rec(ctx, "BeforeBatchAuctionCreated", fmt.Sprintf("%s|%s|%s|%s|%s|%s|%d|%s|%s|%s", auctioneer, startPrice, minBidPrice, sellingCoin, payingCoinDenom, schedStr(vs), maxRounds, rate, tfmt(start), tfmt(end)), fmt.Sprintf("stored=%v", has))
+	return r.rec(ctx, "BeforeBatchAuctionCreated", fmt.Sprintf("%s|%s|%s|%s|%s|%s|%d|%s|%s|%s", CanonAddr(auctioneer), startPrice, minBidPrice, sellingCoin, payingCoinDenom, schedStr(vs), maxRounds, rate, tfmt(start), tfmt(end)), fmt.Sprintf("stored=%v", has))
 }
 
 func (r *recorder) AfterBatchAuctionCreated(ctx context.Context, id uint64, auctioneer string, startPrice, minBidPrice math.LegacyDec, sellingCoin sdk.Coin, payingCoinDenom string, vs []types.VestingSchedule, maxRounds uint32, rate math.LegacyDec, start, end time.Time) error {
 	has, _ := r.k.Auction.Has(ctx, id)
-	return r.rec(ctx, "AfterBatchAuctionCreated", fmt.Sprintf("%d|%s|%s|%s|%s|%s|%s|%d|%s|%s|%s", id, auctioneer, startPrice, minBidPrice, sellingCoin, payingCoinDenom, schedStr(vs), maxRounds, rate, tfmt(start), tfmt(end)), fmt.Sprintf("stored=%v", has))
+	return r.rec(ctx, "AfterBatchAuctionCreated", fmt.Sprintf("%d|%s|%s|%s|%s|%s|%s|%d|%s|%s|%s", id, CanonAddr(auctioneer), startPrice, minBidPrice, sellingCoin, payingCoinDenom, schedStr(vs), maxRounds, rate, tfmt(start), tfmt(end)), fmt.Sprintf("stored=%v", has))
 }
 
 func (r *recorder) BeforeAuctionCanceled(ctx context.Context, id uint64, auctioneer string) error {
@@ -129,12 +129,12 @@ func (r *recorder) BeforeAuctionCanceled(ctx context.Context, id uint64, auction
 	if err == nil {
 		obs = "status=" + a.GetStatus().String()
 	}
-	return r.rec(ctx, "BeforeAuctionCanceled", fmt.Sprintf("%d|%s", id, auctioneer), obs)
+	return r.rec(ctx, "BeforeAuctionCanceled", fmt.Sprintf("%d|%s", id, CanonAddr(auctioneer)), obs)
 }
 
 func (r *recorder) BeforeBidPlaced(ctx context.Context, auctionID, bidID uint64, bidder string, bidType types.BidType, price math.LegacyDec, coin sdk.Coin) error {
 	has, _ := r.k.Bid.Has(ctx, collections.Join(auctionID, bidID))
-	return r.rec(ctx, "BeforeBidPlaced", fmt.Sprintf("%d|%d|%s|%d|%s|%s", auctionID, bidID, bidder, bidType, price, coin), fmt.Sprintf("stored=%v", has))
+	return r.rec(ctx, "BeforeBidPlaced", fmt.Sprintf("%d|%d|%s|%d|%s|%s", auctionID, bidID, CanonAddr(bidder), bidType, price, coin), fmt.Sprintf("stored=%v", has))
 }
 
 func (r *recorder) BeforeBidModified(ctx context.Context, auctionID, bidID uint64, bidder string, bidType types.BidType, price math.LegacyDec, coin sdk.Coin) error {
@@ -142,13 +142,13 @@ func (r *recorder) BeforeBidModified(ctx context.Context, auctionID, bidID uint6
 	if b, err := r.k.Bid.Get(ctx, collections.Join(auctionID, bidID)); err == nil {
 		obs = fmt.Sprintf("stored=%s|%s", b.Price, b.Coin)
 	}
-	return r.rec(ctx, "BeforeBidModified", fmt.Sprintf("%d|%d|%s|%d|%s|%s", auctionID, bidID, bidder, bidType, price, coin), obs)
+	return r.rec(ctx, "BeforeBidModified", fmt.Sprintf("%d|%d|%s|%d|%s|%s", auctionID, bidID, CanonAddr(bidder), bidType, price, coin), obs)
 }
 
 func (r *recorder) BeforeAllowedBiddersAdded(ctx context.Context, abs []types.AllowedBidder) error {
 	var p, o []string
 	for _, ab := range abs {
-		p = append(p, fmt.Sprintf("%d/%s/%s", ab.AuctionId, ab.Bidder, ab.MaxBidAmount))
+		p = append(p, fmt.Sprintf("%d/%s/%s", ab.AuctionId, CanonAddr(ab.Bidder), ab.MaxBidAmount))
 		addr, _ := sdk.AccAddressFromBech32(ab.Bidder)
 		has, _ := r.k.AllowedBidder.Has(ctx, collections.Join(ab.AuctionId, addr))
 		o = append(o, fmt.Sprint(has))
